@@ -22,6 +22,11 @@ package shard
 //      where those two disagree, the incremental one;
 //    - after the rebuild, at most |S|+2 synchronous passes of the real GC body delete the
 //      blob of every removed object.
+// 4. Big sets: a few histories per run additionally upload more plain filler objects than
+//    the rebuild indexes in one batch, and the enumeration orders place the interesting
+//    blobs on both sides of the filler runs (head / tail / random cuts), so that the
+//    rebuild crosses batch boundaries between a tombstone or lock and its target's parts.
+//    The oracle is the same; every filler must come out available.
 
 import (
 	"encoding/json"
@@ -262,7 +267,13 @@ const (
 
 var vf18KindName = [...]string{"regular", "split-child", "ec-part", "link", "lock", "tombstone", "virtual-root"}
 
+// vf18BatchHint is the number of blobs the rebuild is known to index per transaction
+// (metabase's unexported resyncBatchSize).  It only sizes the filler population of the
+// big sets and feeds an evidence counter; no verdict depends on it.
+const vf18BatchHint = 1000
+
 type vf18Obj struct {
+	filler bool
 	name   string
 	kind   int
 	obj    *object.Object
@@ -289,6 +300,8 @@ type vf18Case struct {
 	ops    []string
 	final  uint64
 	nviol  int
+	big    bool // more fillers than one rebuild batch
+	nfill  int
 }
 
 func (x *vf18Case) mk(size int, exp int64) *object.Object {
@@ -429,6 +442,156 @@ func (x *vf18Case) build(budget int) {
 	if epoch < x.final {
 		x.hist = append(x.hist, vf18Step{epoch: x.final})
 	}
+}
+
+// worthBig tells whether the planned universe is worth the cost of a big set: it has a
+// tombstone or lock, and (two cases out of three) a tombstone of a split/EC root.
+func (x *vf18Case) worthBig() bool {
+	assoc, rootTomb := false, false
+	for _, o := range x.objs {
+		if o.kind == vf18Tomb || o.kind == vf18Lock {
+			assoc = true
+		}
+		if o.kind == vf18Tomb {
+			if t := x.byAddr[o.target]; t != nil && t.kind == vf18Root {
+				rootTomb = true
+			}
+		}
+	}
+	return assoc && (rootTomb || x.caseNo%3 == 2)
+}
+
+// addFillers plans the plain objects (no expiration, no relations) that make the stored
+// set larger than one rebuild batch: mostly somewhat above one batch, sometimes above
+// two, sometimes such that the last regular blob sits exactly at / next to a boundary.
+func (x *vf18Case) addFillers() {
+	regular := 0
+	for _, o := range x.objs {
+		if o.kind != vf18Tomb && o.kind != vf18Lock && o.kind != vf18Root {
+			regular++
+		}
+	}
+	var n int
+	switch x.caseNo % 6 {
+	case 1:
+		n = (1+(x.caseNo/6)%2)*vf18BatchHint + x.rng.IntN(4) - 1 - regular
+	case 3:
+		n = 2*vf18BatchHint + 50 + x.rng.IntN(600)
+	default:
+		n = vf18BatchHint + 50 + x.rng.IntN(450)
+	}
+	for i := range n {
+		o := x.mk(x.rng.IntN(16), -1)
+		f := x.add(fmt.Sprintf("fill%d", i), vf18Reg, o, o.GetID())
+		f.filler = true
+	}
+	x.big, x.nfill = true, n
+	// the fillers are uploaded partly before and partly after the planned history
+	k := x.rng.IntN(n + 1)
+	var hist []vf18Step
+	for _, o := range x.objs {
+		if o.filler {
+			if k == 0 {
+				hist = append(hist, x.hist...)
+			}
+			k--
+			hist = append(hist, vf18Step{put: o})
+		}
+	}
+	if k >= 0 {
+		hist = append(hist, x.hist...)
+	}
+	x.hist = hist
+}
+
+// bigOrder builds one enumeration order of a big set: the fillers (shuffled) form the
+// body and every interesting blob is inserted at a slot of it.  mode 0: tombstones and
+// locks before all fillers, the rest after them; 1: the inverse; otherwise one of: head
+// or tail per blob / uniformly random slots / clusters at the head, two random cuts and
+// the tail.
+func (x *vf18Case) bigOrder(mode int, inter, fill []oid.Address) ([]oid.Address, string) {
+	rng := x.rng
+	n := len(fill)
+	f := slices.Clone(fill)
+	rng.Shuffle(n, func(i, j int) { f[i], f[j] = f[j], f[i] })
+	it := slices.Clone(inter)
+	rng.Shuffle(len(it), func(i, j int) { it[i], it[j] = it[j], it[i] })
+	slot := map[oid.Address]int{}
+	assoc := func(a oid.Address) bool { k := x.byAddr[a].kind; return k == vf18Tomb || k == vf18Lock }
+	var shape string
+	switch {
+	case mode == 0 || mode == 1:
+		shape = [...]string{"tombstones-and-locks-head|rest-tail", "rest-head|tombstones-and-locks-tail"}[mode]
+		for _, a := range it {
+			if assoc(a) == (mode == 0) {
+				slot[a] = 0
+			} else {
+				slot[a] = n
+			}
+		}
+	default:
+		switch rng.IntN(3) {
+		case 0:
+			shape = "head-or-tail"
+			for _, a := range it {
+				slot[a] = n * rng.IntN(2)
+			}
+		case 1:
+			shape = "uniform"
+			for _, a := range it {
+				slot[a] = rng.IntN(n + 1)
+			}
+		default:
+			shape = "clusters"
+			cuts := [4]int{0, rng.IntN(n + 1), rng.IntN(n + 1), n}
+			for _, a := range it {
+				slot[a] = cuts[rng.IntN(4)]
+			}
+		}
+	}
+	slices.SortStableFunc(it, func(a, b oid.Address) int { return slot[a] - slot[b] })
+	res := make([]oid.Address, 0, n+len(it))
+	j := 0
+	for i := 0; i <= n; i++ {
+		for j < len(it) && slot[it[j]] == i {
+			res = append(res, it[j])
+			j++
+		}
+		if i < n {
+			res = append(res, f[i])
+		}
+	}
+	return res, shape
+}
+
+// acrossBatches counts (evidence only) the pairs <tombstone or lock, stored object it
+// targets / stored part of the root it targets> of which the associated object is read
+// first and at least one full rebuild batch ends in between.
+func (x *vf18Case) acrossBatches(order []oid.Address) int {
+	batch := map[oid.Address]int{}
+	c := 0
+	for _, a := range order {
+		batch[a] = c / vf18BatchHint
+		if k := x.byAddr[a].kind; k != vf18Tomb && k != vf18Lock {
+			c++
+		}
+	}
+	n := 0
+	for _, a := range order {
+		t := x.byAddr[a]
+		if t.filler || (t.kind != vf18Tomb && t.kind != vf18Lock) {
+			continue
+		}
+		for _, p := range x.objs {
+			if p.filler || p.kind == vf18Root || (p.addr != t.target && p.root != t.target) {
+				continue
+			}
+			if b, ok := batch[p.addr]; ok && b > batch[a] {
+				n++
+			}
+		}
+	}
+	return n
 }
 
 // ---------------------------------------------------------------------------------
@@ -586,7 +749,13 @@ func (w vf18Want) norm(base string) string {
 
 func (x *vf18Case) describe() []string {
 	var res []string
+	if x.nfill > 0 {
+		res = append(res, fmt.Sprintf("fill0..fill%d regular, no expiration, no relations", x.nfill-1))
+	}
 	for _, o := range x.objs {
+		if o.filler {
+			continue
+		}
 		d := fmt.Sprintf("%s %s %s", o.name, vf18KindName[o.kind], o.addr.Object().EncodeToString())
 		if o.exp >= 0 {
 			d += fmt.Sprintf(" exp=%d", o.exp)
@@ -596,15 +765,30 @@ func (x *vf18Case) describe() []string {
 	return res
 }
 
+// names renders an order; runs of fillers are folded into "<n fillers>".
 func (x *vf18Case) names(l []oid.Address) []string {
-	res := make([]string, len(l))
-	for i, a := range l {
-		if o := x.byAddr[a]; o != nil {
-			res[i] = o.name
-		} else {
-			res[i] = a.String()
+	res := make([]string, 0, min(len(l), 64))
+	run := 0
+	flushRun := func() {
+		if run > 0 {
+			res = append(res, fmt.Sprintf("<%d fillers>", run))
+			run = 0
 		}
 	}
+	for _, a := range l {
+		o := x.byAddr[a]
+		if o != nil && o.filler {
+			run++
+			continue
+		}
+		flushRun()
+		if o != nil {
+			res = append(res, o.name)
+		} else {
+			res = append(res, a.String())
+		}
+	}
+	flushRun()
 	return res
 }
 
@@ -613,7 +797,7 @@ func (x *vf18Case) violation(key, what string, extra map[string]any) {
 	if x.nviol > 8 {
 		return
 	}
-	rep := map[string]any{"case_index": x.caseNo, "final_epoch": x.final, "history": x.ops, "universe": x.describe()}
+	rep := map[string]any{"case_index": x.caseNo, "big_set": x.big, "final_epoch": x.final, "history": x.ops, "universe": x.describe()}
 	for k, v := range extra {
 		rep[k] = v
 	}
@@ -664,16 +848,30 @@ func vf18NextPerm(p []int) bool {
 	return true
 }
 
-func vf18RunCase(r *verifkit.Run, caseNo, budget, maxFull, samples int) {
-	rng := r.Rand("case", caseNo)
+// vf18RunCase runs one stored set.  big > 0: a big set (own random stream) rebuilt in
+// that many enumeration orders.
+func vf18RunCase(r *verifkit.Run, caseNo, budget, maxFull, samples, big int) {
 	dir, err := os.MkdirTemp("", "vf18-")
 	if err != nil {
 		r.Inconclusive("mkdtemp: " + err.Error())
 		return
 	}
 	defer os.RemoveAll(dir)
-	x := &vf18Case{r: r, caseNo: caseNo, rng: rng, byAddr: map[oid.Address]*vf18Obj{}}
-	x.build(budget)
+	var x *vf18Case
+	if big == 0 {
+		x = &vf18Case{r: r, caseNo: caseNo, rng: r.Rand("case", caseNo), byAddr: map[oid.Address]*vf18Obj{}}
+		x.build(budget)
+	} else {
+		for att := 0; ; att++ {
+			x = &vf18Case{r: r, caseNo: caseNo, rng: r.Rand("bigcase", caseNo*1000+att), byAddr: map[oid.Address]*vf18Obj{}}
+			x.build(budget)
+			if x.worthBig() || att == 500 {
+				break
+			}
+		}
+		x.addFillers()
+	}
+	rng := x.rng
 
 	// 1. incremental construction on a real shard
 	ep := &vf18Epoch{}
@@ -690,6 +888,19 @@ func vf18RunCase(r *verifkit.Run, caseNo, budget, maxFull, samples int) {
 			continue
 		}
 		err := shA.Put(st.put.obj, nil)
+		if st.put.filler {
+			if err != nil {
+				r.Inconclusive(fmt.Sprintf("big case %d: filler %s was rejected: %v", caseNo, st.put.name, err))
+				return
+			}
+			r.Count("filler_puts_ok", 1)
+			if n := len(x.ops); n > 0 && strings.HasPrefix(x.ops[n-1], "put(<fillers ") {
+				x.ops[n-1] = fmt.Sprintf("put(<fillers ..%s>)->ok", st.put.name)
+			} else {
+				x.ops = append(x.ops, fmt.Sprintf("put(<fillers ..%s>)->ok", st.put.name))
+			}
+			continue
+		}
 		res := "ok"
 		if err != nil {
 			res = "rejected"
@@ -750,12 +961,34 @@ func vf18RunCase(r *verifkit.Run, caseNo, budget, maxFull, samples int) {
 
 	// 2. permutations
 	var perms [][]int
+	var bigOrders [][]oid.Address
+	var bigShapes []string
 	id := make([]int, len(set))
 	for i := range id {
 		id[i] = i
 	}
 	exhaustive := len(set) <= maxFull
-	if exhaustive {
+	if x.big {
+		var inter, fill []oid.Address
+		for _, a := range set {
+			if x.byAddr[a].filler {
+				fill = append(fill, a)
+			} else {
+				inter = append(inter, a)
+			}
+		}
+		rev := slices.Clone(set)
+		slices.Reverse(rev)
+		bigOrders, bigShapes = append(bigOrders, set, rev), append(bigShapes, "by-address", "by-address-reversed")
+		for m := 0; len(bigOrders) < max(big, 4); m++ {
+			o, shape := x.bigOrder(m, inter, fill)
+			bigOrders, bigShapes = append(bigOrders, o), append(bigShapes, shape)
+		}
+		perms = make([][]int, len(bigOrders))
+		r.Count("big_sets", 1)
+		r.Max("max_big_set_size", int64(len(set)))
+		r.Seen("big_set_filler_counts", fmt.Sprint(len(fill)))
+	} else if exhaustive {
 		p := slices.Clone(id)
 		for ok := true; ok; ok = vf18NextPerm(p) {
 			perms = append(perms, slices.Clone(p))
@@ -768,13 +1001,22 @@ func vf18RunCase(r *verifkit.Run, caseNo, budget, maxFull, samples int) {
 			perms = append(perms, rng.Perm(len(set)))
 		}
 	}
-	if exhaustive {
+	switch {
+	case x.big:
+	case exhaustive:
 		r.Count("sets_with_all_permutations", 1)
-	} else {
+	default:
 		r.Count("sets_with_sampled_permutations", 1)
 	}
-	r.Max("max_stored_set_size", int64(len(set)))
-	r.Seen("stored_set_sizes", fmt.Sprint(len(set)))
+	if !x.big {
+		r.Max("max_stored_set_size", int64(len(set)))
+		r.Seen("stored_set_sizes", fmt.Sprint(len(set)))
+	}
+	// class keys of big sets carry their own shape suffix
+	sfx := ""
+	if x.big {
+		sfx = "|set-larger-than-a-rebuild-batch"
+	}
 
 	w := &vf18Store{inner: fs}
 	firstSeen := map[oid.Address]vf18Status{}
@@ -791,9 +1033,20 @@ func vf18RunCase(r *verifkit.Run, caseNo, budget, maxFull, samples int) {
 		return
 	}
 	for pi, p := range perms {
-		order := make([]oid.Address, len(p))
-		for i, k := range p {
-			order[i] = set[k]
+		var order []oid.Address
+		if x.big {
+			order = bigOrders[pi]
+			r.Count("big_set_resyncs", 1)
+			r.Seen("big_order_shapes", bigShapes[pi])
+			if n := x.acrossBatches(order); n > 0 {
+				r.Count("big_orders_with_tombstone_or_lock_read_a_batch_before_its_target", 1)
+				r.Count("big_pairs_tombstone_or_lock_read_a_batch_before_its_target", n)
+			}
+		} else {
+			order = make([]oid.Address, len(p))
+			for i, k := range p {
+				order[i] = set[k]
+			}
 		}
 		w.reset(order)
 		var rerr error
@@ -806,6 +1059,9 @@ func vf18RunCase(r *verifkit.Run, caseNo, budget, maxFull, samples int) {
 		r.Eval(1)
 		r.Count("resyncs", 1)
 		info := map[string]any{"order": x.names(order), "permutation_index": pi}
+		if x.big {
+			info["order_shape"] = bigShapes[pi]
+		}
 		if rerr != nil {
 			x.violation("resync-error", fmt.Sprintf("ResyncFromBlobstor failed for order %v: %v", x.names(order), rerr), info)
 			continue
@@ -817,7 +1073,12 @@ func vf18RunCase(r *verifkit.Run, caseNo, budget, maxFull, samples int) {
 		for _, a := range watch {
 			o := x.byAddr[a]
 			got := vf18Observe(shB.metaBase, a)
-			fmt.Fprintf(&sig, "%s=%s;", o.name, got)
+			if !o.filler || got.base != "available" || got.locked {
+				fmt.Fprintf(&sig, "%s=%s;", o.name, got)
+			}
+			if o.filler {
+				r.Count("filler_status_checks", 1)
+			}
 			r.Seen("statuses_after_resync", got.base)
 			wa := want[a]
 			if pi == 0 {
@@ -829,7 +1090,7 @@ func vf18RunCase(r *verifkit.Run, caseNo, budget, maxFull, samples int) {
 				if t0 := x.trigger(firstOrder, o); trg == "no-tombstone-read-early" {
 					trg = t0
 				}
-				key := fmt.Sprintf("order-dependent-status|%s|%s~%s|%s", vf18KindName[o.kind], pair[0], pair[1], trg)
+				key := fmt.Sprintf("order-dependent-status|%s|%s~%s|%s", vf18KindName[o.kind], pair[0], pair[1], trg) + sfx
 				if !reported[key+o.name] {
 					reported[key+o.name] = true
 					x.violation(key, fmt.Sprintf("%s (%s) is %s after a rebuild in order %v but %s in order %v; reference status %q (%s), incremental %s",
@@ -842,7 +1103,7 @@ func vf18RunCase(r *verifkit.Run, caseNo, budget, maxFull, samples int) {
 			}
 			r.Count("comparisons_with_reference", 1)
 			if wa.norm(got.base) != wa.base && got.base != incr[a].base {
-				key := fmt.Sprintf("status-after-resync|%s|want=%s|got=%s|%s", vf18KindName[o.kind], wa.base, got.base, x.trigger(order, o))
+				key := fmt.Sprintf("status-after-resync|%s|want=%s|got=%s|%s", vf18KindName[o.kind], wa.base, got.base, x.trigger(order, o)) + sfx
 				if !reported[key+o.name] {
 					reported[key+o.name] = true
 					x.violation(key, fmt.Sprintf("after a rebuild in order %v, %s (%s) is %s; the stored set says %s (%s), incremental construction says %s",
@@ -854,7 +1115,7 @@ func vf18RunCase(r *verifkit.Run, caseNo, budget, maxFull, samples int) {
 				r.Count("resync_agrees_with_reference_not_incremental", 1)
 			}
 			if wa.lockKnown && wa.base != "removed" && got.locked != wa.locked && got.locked != incr[a].locked {
-				key := fmt.Sprintf("lock-after-resync|%s|want=%v|got=%v", vf18KindName[o.kind], wa.locked, got.locked)
+				key := fmt.Sprintf("lock-after-resync|%s|want=%v|got=%v", vf18KindName[o.kind], wa.locked, got.locked) + sfx
 				if !reported[key+o.name] {
 					reported[key+o.name] = true
 					x.violation(key, fmt.Sprintf("after a rebuild in order %v, IsLocked(%s)=%v; the stored set says %v, incremental construction says %v",
@@ -866,8 +1127,9 @@ func vf18RunCase(r *verifkit.Run, caseNo, budget, maxFull, samples int) {
 
 		// 3. garbage collection must be able to reclaim every removed object's blob
 		if nRemoved > 0 {
+			// fillers are never garbage: the bound counts the other blobs only
 			passes := 0
-			for ; passes < len(set)+2; passes++ {
+			for ; passes < len(set)-x.nfill+2; passes++ {
 				left := 0
 				for _, a := range set {
 					if wa := want[a]; wa.constrained && wa.base == "removed" && w.has(a) {
@@ -889,7 +1151,7 @@ func vf18RunCase(r *verifkit.Run, caseNo, budget, maxFull, samples int) {
 				r.Count("gc_checks_removed_objects", 1)
 				if w.has(a) {
 					o := x.byAddr[a]
-					key := fmt.Sprintf("gc-cannot-reclaim|%s|%s", vf18KindName[o.kind], x.trigger(order, o))
+					key := fmt.Sprintf("gc-cannot-reclaim|%s|%s", vf18KindName[o.kind], x.trigger(order, o)) + sfx
 					if !reported[key+o.name] {
 						reported[key+o.name] = true
 						x.violation(key, fmt.Sprintf("after a rebuild in order %v and %d GC passes the blob of removed object %s (%s) is still stored; its status after the rebuild was reported before GC",
@@ -920,17 +1182,23 @@ func vf18RunCase(r *verifkit.Run, caseNo, budget, maxFull, samples int) {
 	if nAssoc > 0 {
 		var ws []string
 		for _, a := range watch {
-			ws = append(ws, vf18KindName[x.byAddr[a].kind]+":"+want[a].base)
+			if !x.byAddr[a].filler {
+				ws = append(ws, vf18KindName[x.byAddr[a].kind]+":"+want[a].base)
+			}
 		}
 		sort.Strings(ws)
-		r.Distinct(fmt.Sprintf("n%d|%s", len(set), strings.Join(ws, ",")))
+		if x.big {
+			r.Distinct(fmt.Sprintf("big%d|n%d|%s", x.nfill/vf18BatchHint, len(ws), strings.Join(ws, ",")))
+		} else {
+			r.Distinct(fmt.Sprintf("n%d|%s", len(set), strings.Join(ws, ",")))
+		}
 		r.Count("sets_with_tombstone_or_lock", 1)
 	}
 	r.Count("distinct_post_resync_states_per_set_total", len(sigs))
 	if len(sigs) > 1 {
 		r.Count("sets_with_order_dependent_state", 1)
 	}
-	if caseNo < 3 {
+	if caseNo < 3 && !x.big {
 		r.Sample(map[string]any{"case_index": caseNo, "history": x.ops, "stored_set": x.names(set), "permutations": len(perms), "final_epoch": x.final})
 	}
 }
@@ -940,17 +1208,23 @@ func TestVerif_C18(t *testing.T) {
 	defer r.Finish()
 	cases := r.Pick(300, 1500)
 	budget, maxFull, samples := r.Pick(6, 7), r.Pick(5, 6), r.Pick(60, 300)
-	r.SetRule(fmt.Sprintf("%d seeded histories (puts of regular objects, V2 split children + link, EC parts, tombstones and locks with/without expiration, epoch advances; mostly upload order, sometimes shuffled) of at most %d objects on a real shard; the blobs it keeps form the stored set. One evaluation = one real DB.ResyncFromBlobstor over one enumeration order of that set imposed by a common.Storage wrapper (all permutations for sets of <= %d blobs, native + reverse + %d seeded permutations above), followed by status reads of every stored object / virtual root and up to |S|+2 real GC passes. distinct = stored sets (size, kinds, reference statuses) of >= 2 blobs containing a tombstone or lock", cases, budget, maxFull, samples))
+	bigCases, bigOrders := r.Pick(4, 24), r.Pick(8, 20)
+	r.SetRule(fmt.Sprintf("%d big sets: a history of the same kind plus plain filler objects (%d..%d of them, more than the %d blobs one rebuild batch indexes; every sixth set above two batches; every sixth sized so that the last regular blob sits exactly at / next to a batch end), each rebuilt in %d enumeration orders that insert the interesting blobs into the shuffled filler body (by address, reversed, tombstones+locks before all fillers and the rest after, the inverse, then seeded head-or-tail / uniform / clustered placements), same status + GC oracle, every filler must be available. Plus ", bigCases, vf18BatchHint+50, 2*vf18BatchHint+650, vf18BatchHint, bigOrders) + fmt.Sprintf("%d seeded histories (puts of regular objects, V2 split children + link, EC parts, tombstones and locks with/without expiration, epoch advances; mostly upload order, sometimes shuffled) of at most %d objects on a real shard; the blobs it keeps form the stored set. One evaluation = one real DB.ResyncFromBlobstor over one enumeration order of that set imposed by a common.Storage wrapper (all permutations for sets of <= %d blobs, native + reverse + %d seeded permutations above), followed by status reads of every stored object / virtual root and up to |S|+2 real GC passes. distinct = stored sets (size, kinds, reference statuses) of >= 2 blobs containing a tombstone or lock", cases, budget, maxFull, samples))
 	r.Assume("status = class of DB.Exists (available / removed / expired / not found / virtual parent) plus DB.IsLocked; reference: removed iff a stored tombstone targets the object or its root, expired iff past expiration without a live lock, else available")
 	r.Assume("tombstones do not expire before the final epoch; a tombstone next to a live lock (cannot arise from accepted puts) is not constrained; GC passes are the shard's removeGarbage body driven synchronously, expiry handling is left out")
 	if p := os.Getenv("VERIF_REPLAY"); p != "" {
 		var doc struct {
 			Case struct {
-				CaseIndex int `json:"case_index"`
+				CaseIndex int  `json:"case_index"`
+				BigSet    bool `json:"big_set"`
 			} `json:"case"`
 		}
 		if b, err := os.ReadFile(p); err == nil && json.Unmarshal(b, &doc) == nil {
-			vf18RunCase(r, doc.Case.CaseIndex, budget, maxFull, samples)
+			if doc.Case.BigSet {
+				vf18RunCase(r, doc.Case.CaseIndex, budget, maxFull, samples, bigOrders)
+			} else {
+				vf18RunCase(r, doc.Case.CaseIndex, budget, maxFull, samples, 0)
+			}
 			r.Distinct("replay-a")
 			r.Distinct("replay-b")
 			return
@@ -963,15 +1237,25 @@ func TestVerif_C18(t *testing.T) {
 		go func() {
 			defer wg.Done()
 			for c := range ch {
-				vf18RunCase(r, c, budget, maxFull, samples)
+				if c < 0 {
+					vf18RunCase(r, -c-1, budget, maxFull, samples, bigOrders)
+				} else {
+					vf18RunCase(r, c, budget, maxFull, samples, 0)
+				}
 			}
 		}()
+	}
+	for c := range bigCases { // the expensive ones first
+		ch <- -c - 1
 	}
 	for c := range cases {
 		ch <- c
 	}
 	close(ch)
 	wg.Wait()
+	if r.Counter("big_orders_with_tombstone_or_lock_read_a_batch_before_its_target") == 0 || r.Counter("filler_status_checks") == 0 {
+		r.Inconclusive("no big set was rebuilt with a tombstone or lock read at least one batch before its target")
+	}
 	if r.Counter("gc_checks_removed_objects") == 0 || r.Counter("comparisons_with_reference") == 0 {
 		r.Inconclusive("no removed object / no constrained comparison was observed")
 	}
